@@ -30,6 +30,18 @@ claim("C05",
       "Lean 4 proof (structural induction over the greedy-fill loop) + model/implementation correspondence",
       "DESIGN.md §7 C05")
 
+claim("C11",
+      "Lean theorems for all sentence lists/widths/indents about an exact fold model of line_wrap_by_sentence: FRAME "
+      "(a step rewrites only the last line), LOCAL_PREFIX, LOCAL_SUFFIX, END_BREAKS, BREAK_CAUSE (each sentence "
+      "contributes a greedy fill of itself, optionally glued to a short last line), S_LOSSLESS, SPLIT; model tied by "
+      "equality with the real wrapper on ~20k calls per quick run; locality checked directly on the real wrapper "
+      "for random single-sentence edits.",
+      COMMON_NOTE + "The sentence-end regex is a parameter (flags computed by the real regex). Markdown layers "
+      "(tag newlines, hard breaks, atomic constructs) are excluded from this tie (identity on the generated inputs) "
+      "and belong to C06/C01.",
+      "Lean 4 proof (frame lemma + induction over the sentence fold) + model/implementation correspondence",
+      "DESIGN.md §7 C11")
+
 NOT_YET = {
 }
 
